@@ -129,6 +129,8 @@ func c15lClass(b []byte, edns bool) byte {
 	switch m.Rcode {
 	case dns.RcodeSuccess:
 		return 'o'
+	case dns.RcodeServerFailure: // fail=1: the upstream is unreachable
+		return 's'
 	case dns.RcodeRefused:
 		opts := 0
 		for _, rr := range m.Extra {
@@ -228,7 +230,7 @@ func c15lHTTP(src netip.Addr, port, k int) string {
 		body, _ := io.ReadAll(resp.Body)
 		resp.Body.Close()
 		switch resp.StatusCode {
-		case 200:
+		case 200, 500: // 500: SERVFAIL from a failed forward? (classified by the body if there is one)
 			out = append(out, c15lClass(body, ed))
 		case 503:
 			out = append(out, '5')
@@ -335,6 +337,9 @@ func c15lRunOnce(m map[string]string) (string, time.Duration, bool) {
 			GlobalLimit: atoi(m["glob"]),
 			Client:      router.ClientLimiterConfig{Limit: 1, Burst: atoi(m["burst"]), V4Mask: atoi(m["v4"]), V6Mask: atoi(m["v6"])},
 		},
+	}
+	if m["fail"] == "1" { // an upstream nobody listens at: every forward fails (connection refused), SERVFAIL
+		cfg.Upstreams[0].Addr = fmt.Sprintf("tcp://127.0.0.1:%d", c15lFreeTCPPort())
 	}
 	c15lUDPDst = net.IPv4(127, 0, 0, 1)
 	if m["mr"] == "1" {
@@ -470,6 +475,10 @@ func c15lGen(r *rand.Rand, thorough bool, emit func(c, cat string)) {
 		// global first: a global refusal does not charge the client; both refuse -> global
 		{fmt.Sprintf("glob=5 burst=4 v4=0 ops=x:%s:3,x:%s:3,x:%s:2,x:%s:2,x:%s:1", a, b, b, b, a), "direct-global-order"},
 		{fmt.Sprintf("glob=4 burst=3 v4=0 ops=x:%s:3,x:%s:3,x:%s:1,x:%s:1", a, a, a2, b), "direct-global-order"},
+		// an unreachable upstream: SERVFAIL answers cost what answers cost (C15-m12: the upstream cost refunded on
+		// failure, and a refund of what was never paid mints tokens - the client is never refused again)
+		{fmt.Sprintf("glob=0 burst=10 v4=0 fail=1 ops=u:%s,u:%s,u:%s,u:%s,u:%s,u:%s,u:%s,u:%s,u:%s,u:%s,u:%s,u:%s,u:%s", a, a, a, a, a, a, a, a, a, a, a2, b, b), "udp-failing-upstream"},
+		{fmt.Sprintf("glob=0 burst=12 v4=0 fail=1 ops=t:%s:16,h:%s:3,u:%s", a, b, a2), "tcp-failing-upstream"},
 	}
 	for _, f := range fixed {
 		emit(f.cs, f.cat)
@@ -534,7 +543,11 @@ func c15lGen(r *rand.Rand, thorough bool, emit func(c, cat string)) {
 				cat += "-" + string(k)
 			}
 		}
-		emit(fmt.Sprintf("glob=0 burst=%d v4=%d ops=%s", burst, v4, strings.Join(ops, ",")), cat)
+		failing := ""
+		if r.Intn(8) == 0 {
+			failing, cat = " fail=1", cat+"-failing"
+		}
+		emit(fmt.Sprintf("glob=0 burst=%d v4=%d%s ops=%s", burst, v4, failing, strings.Join(ops, ",")), cat)
 	}
 }
 
